@@ -226,3 +226,18 @@ def drive_real(ns, adj, app, pieces, addr=("127.0.0.1", 50000), sym_headers=True
         return dict(wire=sock.wire(), closing=closing(ch), exc=exc)
     finally:
         srv.close()
+
+
+def shard(js, label, n, when=lambda j: True):
+    """split every job selected by `when` into n jobs, each with the labelled choice pinned to one value: the same decision tree, spread over
+    more worker processes (the union of the shards is the original job)"""
+    out = []
+    for j in js:
+        if when(j):
+            for v in range(n):
+                f = dict(j.get("force") or {})
+                f[label] = v
+                out.append(dict(j, name="%s:%s=%d" % (j["name"], label, v), force=f))
+        else:
+            out.append(j)
+    return out
